@@ -221,8 +221,8 @@ def run(tier):
         if k not in by_doc:
             by_doc[k] = len(docs)
             docs.append({"doc": c["doc"], "preds": [], "src": "mc:" + c["sc"]})
-        if c["cls"] in DEPTH_CLASSES:
-            continue        # outcome on the scaled-down machine stack, see DEPTH_CLASSES
+        if c["cls"] in DEPTH_CLASSES or (c["sc"] == "chain" and c["scaled"]):
+            continue        # outcome on the scaled-down machine stack / limits (see DEPTH_CLASSES): not about this document
         docs[by_doc[k]]["preds"].append({"w": c["w"], "arg": c["arg"], "pc": c["pc"], "cls": c["cls"], "res": c["res"], "sc": c["sc"]})
     mrecs = [{"doc": d["doc"]} for d in docs]
     caps = {"hang": 1 if quick else 4, "overflow": 4 if quick else 25}
